@@ -202,7 +202,13 @@ def check(ctx, run):
         return None
 
     run.require("C03.R4", 2)
-    for label, r in (("vectorised", resv[0]), ("state-dependent", res[0])):
+    # both branches with the same two hedging instruments, so that sizes taken from the hedge list (len(hedge)) and sizes taken from the model
+    # output are the same number H = 2
+    Hs = sp.Integer(2)
+    resv2 = [r for r in interp.explore(ch, [W.option()], {"hedge": hedge}, self_obj=hv) if not r["raises"]]
+    if not resv2:
+        raise AnalysisError("compute_hedge [vectorised, two hedges]: no non-raising path")
+    for label, r in (("vectorised", resv2[0]), ("state-dependent", res[0])):
         env = {"deriv.ul.spot": (Nn, Tn), "hA.spot": (Nn, Tn), "hB.spot": (Nn, Tn), "__call__": model_call}
         for sy in walk(r["value"]):
             if isinstance(sy, Sym) and sy.name.startswith("carried:__buf_prev_output"):
@@ -215,6 +221,10 @@ def check(ctx, run):
             ok4, msg = False, str(ex)
         except Unknown as ex:
             raise AnalysisError(f"compute_hedge [{label}]: shape engine cannot model {ex}")
+        for src_, tgt_ in env.get("__reshapes__", []):
+            if ok4 and len(src_) == len(tgt_) and sorted(map(str, src_)) == sorted(map(str, tgt_)) and any(sp.simplify(u - v) != 0 for u, v in zip(src_, tgt_)):
+                # reshape keeps the elements in memory order: viewing (N, T, H) as (N, H, T) gives the right extents and the wrong entries
+                ok4, msg = False, f"reshape of {tuple(str(e) for e in src_)} to the permuted extents {tuple(str(e) for e in tgt_)} re-reads the memory row by row: the axes are not exchanged (transpose is)"
         run.oblige("C03.R4", f"compute_hedge [{label}] returns (N, H, T)", ok4, msg)
         if not ok4:
             run.fail(Finding("C03.R4", ch.qualname, f"[{label}] {msg}", "for a model mapping (N, T', F) to (N, T', H) the hedge must have shape (N, H, T) on both branches",
